@@ -32,12 +32,12 @@ def plan(tier):
 
 
 def gen_cases(ctx):
-    for i in range(ctx.share(ctx.scale(3000, 100000))):
+    for i in range(ctx.share(ctx.scale(3000, 300000))):
         rng = ctx.rng(1, i)
         big = rng.random() < 0.01
         yield {"kind": "texture", "seed": int(rng.integers(1 << 31)), "n": 10000 if big else int(rng.choice([1, 2, 3, 10, 100, 1000])),
                "tex": str(rng.choice(gen.TEXTURE_KINDS)), "axis": AX[int(rng.integers(3))]}
-    for i in range(ctx.share(ctx.scale(2000, 60000))):
+    for i in range(ctx.share(ctx.scale(2000, 200000))):
         rng = ctx.rng(2, i)
         yield {"kind": "strain", "seed": int(rng.integers(1 << 31)),
                "F": str(rng.choice(["random", "large_stretch", "near_rotation", "simple_shear", "pure_shear", "general_shear"]))}
